@@ -487,7 +487,7 @@ def classify_crash(logtxt, rc):
     if m:
         head = m.group(1)
         # first frame inside the repo (not verif harness files)
-        frames = re.findall(r"(?m)^(\S+)\(.*\)\n\s+(/repo/\S+?):(\d+)", logtxt[m.start():])
+        frames = re.findall(r"(?m)^(\S+)\(.*\)\n\s+(%s/\S+?):(\d+)" % re.escape(REPO), logtxt[m.start():])
         top = None
         for fn, path, ln in frames:
             base = os.path.basename(path)
